@@ -178,6 +178,9 @@ func cmdAll(args []string) int {
 		fmt.Fprintln(os.Stderr, "load:", err)
 		return 2
 	}
+	for _, e := range u.loadErrs {
+		fmt.Println("load error:", e)
+	}
 	t0 := time.Now()
 	var all []*Obligation
 	var fcs []*FuncCtx
